@@ -63,4 +63,6 @@ pub assume_specification [f64::round] (x: f64) -> (r: f64) ensures r == fdefs::s
 #[verifier::external_body] pub exec const F64_INFINITY: f64 ensures F64_INFINITY == INFINITY_s() { f64::INFINITY }
 #[verifier::external_body] pub exec const F64_EPSILON: f64 ensures F64_EPSILON == EPSILON_s() { f64::EPSILON }
 #[verifier::external_body] pub exec const F64_MIN_POSITIVE: f64 ensures F64_MIN_POSITIVE == MIN_POSITIVE_s() { f64::MIN_POSITIVE }
-pub assume_specification [f64::clamp] (x: f64, a: f64, b: f64) -> (r: f64) ensures r == fdefs::s_clamp(x, a, b);
+pub assume_specification [f64::clamp] (x: f64, a: f64, b: f64) -> (r: f64)
+    requires fdefs::f_le(a, b)   // f64::clamp panics when min > max or either bound is NaN
+    ensures r == fdefs::s_clamp(x, a, b);
